@@ -334,6 +334,7 @@ MANIFEST_META = {
                   "against the reference table, first columns must be the unit vectors in canonical order, and generated multivectors "
                   "in arbitrary key order must be linear, multiplicative and invertible through frommatrix. expr_as_matrix is run on 15 "
                   "linear programs with symbolic / numeric / array-valued inputs and res_like and A.coeffs(x) - coeffs(f(x)) must expand "
-                  "to zero.",
+                  "to zero."
+                  " Programs with non-adjacent grade selections, half of them passed to expr_as_matrix as registered functions.",
     "level_note": "Trusted: numpy matmul, sympy expand, kv.refalg. expr_as_matrix limited to d<=3 (sympy cost).",
 }
